@@ -1,7 +1,7 @@
 (* C18 -- board bring-up reaches an in-sync shell for any console timing or times out duly.
    Property theorems only; proofs are in ProofC18.v over the model Boot.v (AskfirstInitializer + LinuxBootLogin).
    The console is ARBITRARY in these theorems: any stages, any fragmentation, any timing.  Times in 2^-10 s. *)
-From TV Require Import Base Utf8 Regex Channel ChannelLemmas ProofC06 Hush Session Boot ProofC18 ProofC18b.
+From TV Require Import Base Utf8 Regex Channel ChannelLemmas ProofC06 Hush Session ProofC02 ProofSession ProofC04b ProofLive Boot ProofC18 ProofC18b ProofC18c.
 
 (* (1) with a boot timeout T configured, whatever the console does -- trickles, stalls, prints garbage, never shows
        a prompt -- the whole Linux stage (askfirst banner, login, optional delay, password) ends no later than T after
@@ -74,3 +74,47 @@ Theorem C18_autoboot_keys_only_after_prompt :
   wr (io c') = wr (io c) /\ r <> BOk.
 Proof. exact autoboot_keys_only_after_prompt. Qed.
 Print Assumptions C18_autoboot_keys_only_after_prompt.
+
+(* (8) liveness of the login (no askfirst banner, no login delay, a password): when the console's output up to the
+       login prompt arrives before the boot timeout expires (ready = bytes arriving strictly before the deadline) and
+       the reaction to the user name ends with the password prompt and arrives within the password wait
+       (no_password_timeout, capped by what is left of the boot timeout), then user name and password are sent --
+       exactly these two lines -- and the stage succeeds within the boot timeout: for EVERY fragmentation and timing *)
+Theorem C18_login_succeeds_when_the_prompts_arrive_in_time :
+  forall cfg c pw (st_user st_pw : stage) (sts : list stage) noise0 noise1,
+  b_askfirst cfg = false -> b_login_delay cfg = 0%Z -> b_password cfg = Some pw ->
+  match b_timeout cfg with Some T => (0 < T)%Z | None => True end ->
+  match b_nopw cfg with Some n => (0 < n)%Z | None => True end ->
+  wfc c -> deaths c = [] -> slow c = None ->
+  cpend c = noise0 ++ LOGIN_P -> prompt_only_at_end LOGIN_P noise0 ->
+  ready (deadline (now (io c)) (b_timeout cfg)) (pend (io c)) = length (cpend c) ->
+  any_in (blacklist c) (utf8_enc (b_user cfg) ++ [CR]) = false ->
+  any_in (blacklist c) (utf8_enc pw ++ [CR]) = false ->
+  wf_pend st_user -> cat st_user = noise1 ++ PASSWORD_P -> prompt_only_at_end PASSWORD_P noise1 ->
+  within (match b_nopw cfg, b_timeout cfg with
+          | None, None => None
+          | None, Some T => Some (now (io c) + T - last_time c)%Z
+          | Some n, None => Some n
+          | Some n, Some T => Some (Z.min (now (io c) + T - last_time c) n)
+          end) st_user ->
+  wf_pend st_pw ->
+  exists c',
+    bringup cfg (st_user :: st_pw :: sts) c = (BOk, c', sts) /\
+    wr (io c') = wr (io c) ++ (utf8_enc (b_user cfg) ++ [CR]) ++ (utf8_enc pw ++ [CR]) /\
+    pend (io c') = shift (now (io c')) st_pw /\ wfc c' /\ deaths c' = [] /\
+    match b_timeout cfg with Some T => (now (io c') < now (io c) + T)%Z | None => True end.
+Proof. exact bringup_succeeds. Qed.
+Print Assumptions C18_login_succeeds_when_the_prompts_arrive_in_time.
+
+(* the underlying channel theorem: read_until_prompt with a timeout returns the output when the whole answer arrives
+   in time, whatever the fragmentation *)
+Theorem C18_read_until_prompt_live_under_deadline :
+  forall p tmo c S k,
+  wfc c -> deaths c = [] -> match tmo with Some T => (0 < T)%Z | None => True end ->
+  cpend c = S -> S <> [] -> only_tail (prompt_split (Some p)) S k ->
+  ready (deadline (now (io c)) tmo) (pend (io c)) = length S ->
+  exists c', read_until_prompt (Some p) tmo c = (Ret (text (firstn k S)), c') /\
+             pend (io c') = [] /\ same_cfg c c' /\ deaths c' = [] /\ wfc c' /\ in_time (now (io c)) tmo c' /\
+             now (io c') = last_time c.
+Proof. exact rup_timed_live. Qed.
+Print Assumptions C18_read_until_prompt_live_under_deadline.
